@@ -155,6 +155,7 @@ type machine struct {
 	tainted  map[int]bool
 	stress   bool
 	seq      bool
+	chkLog   []chkRec
 	script   []bool
 	calls    uint64
 	mu       sync.Mutex
@@ -184,6 +185,11 @@ func (t *trackedReader) Close() error {
 	return t.Reader.Close()
 }
 
+type chkRec struct {
+	f  *fetcher
+	ok bool
+}
+
 type fetcher struct {
 	m   *machine
 	src int // which variant this fetcher serves
@@ -197,7 +203,11 @@ func (f *fetcher) Fetch(ctx context.Context, off int64, size int64) (io.ReadClos
 	return io.NopCloser(bytes.NewReader(b[off : off+size])), nil
 }
 func (f *fetcher) Check() error {
-	if !f.m.external(1) {
+	ok := f.m.external(1)
+	if f.m.seq {
+		f.m.chkLog = append(f.m.chkLog, chkRec{f, ok}) // which blob's connection was probed, with what outcome
+	}
+	if !ok {
 		return fmt.Errorf("unreachable")
 	}
 	return nil
@@ -766,7 +776,24 @@ func intervalCase(ops []IOp) []string {
 		}
 		return hs[u]
 	}
+	// a successful probe of a blob's connection — by whichever call made it, also a Resolve that failed later or handed out
+	// another layer over the same blob — is its last successful check
+	observe := func() {
+		for _, h := range hs {
+			if h.released {
+				continue
+			}
+			f, _ := remote.VerifFetcherC12(h.b).(*fetcher)
+			for _, e := range m.chkLog {
+				if e.ok && f != nil && e.f == f {
+					stale[h.b] = false
+				}
+			}
+		}
+		m.chkLog = nil
+	}
 	for _, o := range ops {
+		observe()
 		switch o.Op {
 		case "res":
 			if o.N < 0 || o.N >= nnames {
@@ -878,6 +905,7 @@ func intervalCase(ops []IOp) []string {
 			}
 		}
 	}
+	observe()
 	for _, h := range hs {
 		if !h.released {
 			if _, err := h.l.RootNode(0); err != nil {
